@@ -138,18 +138,21 @@ def items(tier, seed):
     for head in ["softmax", "gauss2", "tanh"]:
         for N in ppoN:
             for cshape in ["N", "N1"]:
-                for pv in pvs:
+                for pv in pvs if N <= 3 else pvs[:1]:
                     add(fam="ppo", head=head, N=N, pv=pv, cshape=cshape, suffix="-" + cshape)
     for head in ["dpg-mlp", "dpg-vec", "dpg-double", "sale", "mrq"]:
         for N in [1, 2, 3]:
-            add(fam="dpg", head=head, N=N, pv="s0-" + ("s1" if quick else "s4"))
+            add(fam="dpg", head=head, N=N, pv="s0-" + ("s3" if quick else "s5"))
     for head in ["tanh", "gauss2"]:
         for qshape in ["N1", "N"]:
             for N in [1, 2, 3]:
-                add(fam="sac", head=head, N=N, pv="s0-" + ("s1" if quick else "s3"), cshape=qshape, suffix="-" + qshape)
+                add(fam="sac", head=head, N=N, pv="s0-" + ("s2" if quick else "s3"), cshape=qshape, suffix="-" + qshape)
     for head in ["tanh", "gauss2"]:
         for N in [1, 2, 3]:
             add(fam="temp", head=head, N=N, pv="s0-" + ("s1" if quick else "s3"))
+    # heaviest first so that the pool balances (order only, the set is unchanged)
+    cost = lambda it: (9 ** it["N"] if it["fam"] == "ppo" else 3 ** it["N"] * 20 if it["fam"] in ("pg", "temp") else 10)  # noqa: E731
+    out.sort(key=lambda it: -cost(it))
     return out
 
 
@@ -414,8 +417,7 @@ def work_ppo(item, col):
     V32 = jnp.reshape(critic(obs), (-1,))
     V = f64(V32)
     zeros = jnp.zeros(N, dtype=jnp.float32)
-    f_loss = nnx.jit(PPO.ppo_loss)
-    f_grad = nnx.jit(nnx.grad(PPO.ppo_loss, argnums=(0, 1)))
+    f_vg = nnx.jit(nnx.value_and_grad(PPO.ppo_loss, argnums=(0, 1)))
     r_grad = nnx.jit(nnx.grad(ppo_ref, argnums=(0, 1)))
     no_mask = jnp.zeros(N, dtype=bool)
 
@@ -428,7 +430,7 @@ def work_ppo(item, col):
         pairwise = float(np.mean((R[:, None] - V[None, :]) ** 2))
         differs = abs(per_sample - pairwise) > 1e-4
         key = (item["name"], "value", d) if (N >= 2 and differs) else None
-        ok, r = guarded(col, entry, N, dict(base, d=d), lambda: (f_loss(actor, critic, lp32, obs, act, zeros, R32, 0.2), f_grad(actor, critic, lp32, obs, act, zeros, R32, 0.2)))
+        ok, r = guarded(col, entry, N, dict(base, d=d), lambda: f_vg(actor, critic, lp32, obs, act, zeros, R32, 0.2))
         if not ok:
             return
         lval, (ga, gc) = r
@@ -464,13 +466,17 @@ def work_ppo(item, col):
             ratio32 = np.array([ratio_of[p] for p in place], dtype=np.float32)
             old32 = lp32 - jnp.log(jnp.asarray(ratio32))
             r64 = np.exp(lp - f64(old32))
+            if not np.allclose(r64, f64(ratio32), rtol=1e-3, atol=0):
+                # |log pi| so large that lp - log(ratio) is not representable: the placement does not exist
+                col.outcome("ppo_placements_skipped_ratio_not_realisable_in_float32", len(ALPHA3) ** N)
+                continue
             for adv in itertools.product(ALPHA3, repeat=N):
                 A = np.array(adv)
                 fav = np.array([(p == 2 and a > 0) or (p == -2 and a < 0) for p, a in zip(place, adv)])
                 outside = np.array([abs(p) == 2 and a != 0 for p, a in zip(place, adv)])
                 case = dict(clip=clip, placement=place, advantages=adv)
                 key = (item["name"], "policy", clip, place, adv) if outside.any() else None
-                ok, r = guarded(col, entry, N, dict(base, **case), lambda: (f_loss(actor, critic, old32, obs, act, f32(A), R32, clip), f_grad(actor, critic, old32, obs, act, f32(A), R32, clip)))
+                ok, r = guarded(col, entry, N, dict(base, **case), lambda: f_vg(actor, critic, old32, obs, act, f32(A), R32, clip))
                 if not ok:
                     return
                 lval, (ga, gc) = r
